@@ -10,7 +10,7 @@
    property names: well-formed graph, every named module exists, subjects and
    objects pairwise unrelated in the hierarchy, both lists non-empty. *)
 From Coq Require Import List Bool NArith.
-From PTA Require Import Names Graph Search Rule SpecRule SpecLines NamesProofs SearchProofs RuleProofs.
+From PTA Require Import Names Graph Search Worklist Rule SpecRule SpecLines NamesProofs SearchProofs RuleProofs GraphProofs WorklistProofs.
 Import ListNotations.
 
 Theorem C01_verdict :
@@ -62,6 +62,63 @@ Theorem C01_query_other_in :
 Proof. exact @q_other_in_char. Qed.
 Print Assumptions C01_query_other_in.
 
+(* ---- the loops as written ----
+   Model/Worklist.v transcribes the four loops of breadth_first_searches.py (stack, checked set, successor /
+   predecessor enumeration, hierarchy-edge test, nodes_to_exclude bookkeeping).  On every graph whose node set is
+   closed under ancestors and whose imports are between nodes and never a hierarchy pair they terminate within the
+   fuel the queries give them and return exactly the imports of the comprehensions above ([res_equiv]: same error,
+   or lists with the same elements) - for ANY filters, related or not.  C01_built_graph_wellformed: every graph the
+   library builds (any module list, import list, level limit) satisfies the three hypotheses. *)
+Definition anc_closed {comp} (g : @graph comp) : Prop :=
+  forall n p, In n (nodes g) -> In p (proper_prefixes n) -> In p (nodes g).
+Definition no_hier_imports {comp} (ceqb : comp -> comp -> bool) (g : @graph comp) : Prop :=
+  forall a b, In (a, b) (imps g) -> childb ceqb a b = false.
+
+Theorem C01_built_graph_wellformed :
+  forall (comp : Type) (ceqb : comp -> comp -> bool), (forall x y, reflect (x = y) (ceqb x y)) ->
+  forall mods imports lim,
+  wf_graph (build_graph ceqb mods imports lim) /\ anc_closed (build_graph ceqb mods imports lim) /\
+  no_hier_imports ceqb (build_graph ceqb mods imports lim).
+Proof.
+  intros comp ceqb Hs mods imports lim. split; [|split].
+  - intros a b H. apply (build_imps_between_nodes ceqb Hs) in H. exact H.
+  - intros n p Hn Hp. exact (build_nodes_ancestor_closed_lim ceqb Hs lim mods imports n p Hn Hp).
+  - intros a b H. exact (build_imps_no_hier ceqb Hs mods imports lim a b H).
+Qed.
+Print Assumptions C01_built_graph_wellformed.
+
+Theorem C01_loop_submodules :
+  forall (comp : Type) (ceqb : comp -> comp -> bool), (forall x y, reflect (x = y) (ceqb x y)) ->
+  forall g, wf_graph g -> anc_closed g -> forall start, In start (nodes g) ->
+  exists l, w_submodules ceqb g start = Some l /\ forall x, In x l <-> (In x (nodes g) /\ prefixb ceqb start x = true).
+Proof.
+  intros comp ceqb Hs g Hwf Hanc start Hin.
+  destruct (w_submodules_spec ceqb Hs g Hwf Hanc start Hin) as [l [E H]]. exists l. split; [exact E|].
+  intros x. rewrite H. apply (in_desc_incl ceqb).
+Qed.
+Print Assumptions C01_loop_submodules.
+
+Theorem C01_loop_between :
+  forall (comp : Type) (ceqb : comp -> comp -> bool), (forall x y, reflect (x = y) (ceqb x y)) ->
+  forall g, wf_graph g -> anc_closed g -> no_hier_imports ceqb g -> forall d u,
+  exists r, w_between ceqb g d u = Some r /\ res_equiv r (q_between ceqb g d u).
+Proof. exact @w_between_refines. Qed.
+Print Assumptions C01_loop_between.
+
+Theorem C01_loop_other_out :
+  forall (comp : Type) (ceqb : comp -> comp -> bool), (forall x y, reflect (x = y) (ceqb x y)) ->
+  forall g, wf_graph g -> anc_closed g -> no_hier_imports ceqb g -> forall d us,
+  exists r, w_other_out ceqb g d us = Some r /\ res_equiv r (q_other_out ceqb g d us).
+Proof. exact @w_other_out_refines. Qed.
+Print Assumptions C01_loop_other_out.
+
+Theorem C01_loop_other_in :
+  forall (comp : Type) (ceqb : comp -> comp -> bool), (forall x y, reflect (x = y) (ceqb x y)) ->
+  forall g, wf_graph g -> anc_closed g -> no_hier_imports ceqb g -> forall ds u,
+  exists r, w_other_in ceqb g ds u = Some r /\ res_equiv r (q_other_in ceqb g ds u).
+Proof. exact @w_other_in_refines. Qed.
+Print Assumptions C01_loop_other_in.
+
 (* ---- non-vacuity: a 7-module tree with 5 imports and a 2-subject / 2-object rule is strict ---- *)
 Open Scope N_scope.
 Definition ex_g : @graph N :=
@@ -89,3 +146,12 @@ Example C01_example_verdicts :
   verdict N.eqb (fun _ _ => false) ex_g (mk_cfg Should true false ex_Ss ex_Os) <> Pass /\
   verdict N.eqb (fun _ _ => false) ex_g (mk_cfg ShouldNot false false ex_Ss [Named [1;7]]) = Pass.
 Proof. split; [vm_compute; discriminate | vm_compute; reflexivity]. Qed.
+
+(* the loops run: on the example graph the worklist queries return the same imports as the comprehensions *)
+Example C01_loop_example :
+  w_between N.eqb ex_g (Named [1;4]) (Named [1;2]) = Some (Ok [([1;4;5], [1;2])]) /\
+  q_between N.eqb ex_g (Named [1;4]) (Named [1;2]) = Ok [([1;4;5], [1;2])] /\
+  w_other_out N.eqb ex_g (SubOf [1;4]) [Named [1;2]] = Some (Ok [([1;4;6], [1;7])]) /\
+  w_other_in N.eqb ex_g [Named [1;2]] (Named [1;4]) = Some (Ok [([1;3], [1;4;5])]) /\
+  w_submodules N.eqb ex_g [1;4] = Some [[1;4]; [1;4;6]; [1;4;5]].
+Proof. repeat split; vm_compute; reflexivity. Qed.
